@@ -200,6 +200,24 @@ func (x *Ex) genFuncsMore(body *LeanFile) {
 		{"internal/pagination", "PageNumberFinder", "addLinkIfValid"},
 		{"internal/pagination", "PageNumberFinder", "linkTextToNumber"},
 	})
+	// the IE Reading View accessor: what Model/IEReader.lean models
+	x.bodyGroup(body, "ieReaderBodies", []string{"C14"}, [][3]string{
+		{"internal/markup/iereader", "", "NewParser"},
+		{"internal/markup/iereader", "Parser", "Article"},
+		{"internal/markup/iereader", "Parser", "OptOut"},
+		{"internal/markup/iereader", "Parser", "findTitle"},
+		{"internal/markup/iereader", "Parser", "findImages"},
+		{"internal/markup/iereader", "Parser", "findPublisher"},
+		{"internal/markup/iereader", "Parser", "findCopyright"},
+		{"internal/markup/iereader", "Parser", "findAuthor"},
+		{"internal/markup/iereader", "Parser", "findDate"},
+		{"internal/markup/iereader", "Parser", "findOptOut"},
+		{"internal/markup/iereader", "Parser", "isImageRelevantBySize"},
+		{"internal/markup/iereader", "Parser", "getImageCaption"},
+		{"internal/markup", "", "NewParser"},
+		{"internal/markup", "Parser", "OptOut"},
+		{"internal/markup", "Parser", "MarkupInfo"},
+	})
 	// the prefix test whose success licenses `linkHref[lenPrefix:]` in PrevNextFinder.FindOutlink
 	x.bodyStmts(body, "internal/stringutil", "", "HasPrefixIgnoreCase", "hasPrefixIgnoreCaseBody", "C01", "C16")
 }
